@@ -219,6 +219,8 @@ R_<TG_, TA_>::initialEnter() noexcept {
 	FFSM2_ASSERT(!_core.request);
 	FFSM2_IF_TRANSITION_HISTORY(_core.previousTransition = currentTransition);
 
+	_core.registry.requested = currentTransition ? currentTransition.destination : StateID{0};
+
 	_apex.deepEnter(control);
 
 	_core.registry.clearRequests();
@@ -307,8 +309,11 @@ R_<TG_, TA_>::processTransitions(Transition& currentTransition) noexcept {
 	}
 	FFSM2_ASSERT(!_core.request);
 
-	if (currentTransition)
+	if (currentTransition) {
+		_core.registry.requested = currentTransition.destination;
+
 		_apex.deepChangeToRequested(control);
+	}
 
 	_core.registry.clearRequests();
 }
